@@ -539,7 +539,11 @@ func readAllRecords(rr protocol.RecordReader) []string {
 		if r.Value != nil {
 			r.Value.Close()
 		}
-		xs = append(xs, canonRec(r.Offset, r.Time.UnixNano()/1000000, k, v, r.Headers, false))
+		ms := int64(0) // the zero time.Time (a record without timestamp) prints as 0, as on the Conn path
+		if !r.Time.IsZero() {
+			ms = r.Time.UnixNano() / 1000000
+		}
+		xs = append(xs, canonRec(r.Offset, ms, k, v, r.Headers, false))
 	}
 }
 
@@ -698,6 +702,10 @@ func build(o *orc.Oracle, r *rand.Rand, base int64, plan []entryPlan) *built {
 	bt := &built{next: base}
 	for _, e := range plan {
 		n := len(e.recs)
+		nt := ""
+		if n > 0 && e.recs[0].ms == -1 {
+			nt = "nt" // no timestamp
+		}
 		switch e.kind {
 		case "m0", "m1":
 			magic := 0
@@ -715,7 +723,7 @@ func build(o *orc.Oracle, r *rand.Rand, base int64, plan []entryPlan) *built {
 				bt.ends = append(bt.ends, len(bt.bytes))
 				bt.crcAt = append(bt.crcAt, start+12+r.Intn(4))
 			}
-			bt.desc = append(bt.desc, fmt.Sprintf("%sx%d%s", e.kind, n, extraTag(e.extra)))
+			bt.desc = append(bt.desc, fmt.Sprintf("%sx%d%s", e.kind, n, extraTag(e.extra)+nt))
 		case "w1":
 			var parts []string
 			rel := int64(0)
@@ -746,7 +754,7 @@ func build(o *orc.Oracle, r *rand.Rand, base int64, plan []entryPlan) *built {
 			bt.next = wrapperOff + 1
 			bt.ends = append(bt.ends, len(bt.bytes))
 			bt.crcAt = append(bt.crcAt, start+12+r.Intn(4))
-			bt.desc = append(bt.desc, fmt.Sprintf("w1c%dx%d%s%s%s", e.codec, n, map[bool]string{true: "s", false: ""}[e.sparse], ktag, extraTag(e.extra)))
+			bt.desc = append(bt.desc, fmt.Sprintf("w1c%dx%d%s%s%s", e.codec, n, map[bool]string{true: "s", false: ""}[e.sparse], ktag, extraTag(e.extra)+nt))
 		case "b2":
 			if e.empty {
 				// a batch whose records were all compacted away: the broker keeps the header (count 0, the offset range)
@@ -817,7 +825,7 @@ func build(o *orc.Oracle, r *rand.Rand, base int64, plan []entryPlan) *built {
 			if e.empty {
 				flags += "e"
 			}
-			bt.desc = append(bt.desc, fmt.Sprintf("b2c%dx%d%s%s", e.codec, n, flags, extraTag(e.extra)))
+			bt.desc = append(bt.desc, fmt.Sprintf("b2c%dx%d%s%s", e.codec, n, flags, extraTag(e.extra)+nt))
 		}
 	}
 	return bt
@@ -882,6 +890,12 @@ func genPlan(r *rand.Rand, class int, thorough bool) []entryPlan {
 			k = []string{"m0", "m1", "w1"}[r.Intn(3)]
 		default:
 			k = "b2"
+		}
+		if k != "m0" && r.Intn(8) == 0 {
+			// records without a timestamp (-1, NO_TIMESTAMP: produced by pre-0.10 clients and kept by up-conversion)
+			for j := range rs {
+				rs[j].ms = -1
+			}
 		}
 		e := entryPlan{kind: k, recs: rs, extra: extraBits(r, k)}
 		switch k {
